@@ -2124,3 +2124,112 @@ func c01r18(rc *core.RC) {
 	})
 	rc.Check(oneField && oneElem, key, fd.Pos(), "a hand-written IfaceIndir states the compiler's rule: a struct is direct only with exactly one field (NumField() compared with 1: %v), an array only with exactly one element (Len() compared with 1: %v); a version that skips zero-size members takes struct{ _ [0]func(); P *int } for direct and the encoder reads the address of the struct as its member", oneField, oneElem)
 }
+
+// ---- C01.R19 a length test in front of a fixed-width slice admits the sequence that ends with the text ----
+
+// Where the library takes a fixed number of bytes out of a text (the four digits of \uXXXX: text[i+1 : i+5]) the
+// test in front compares the cursor with the length. It has to admit exactly the positions at which the slice fits:
+// `i+4 < len(text)` for a high bound of i+5. A test that is stricter by one (`i+5 < len(text)`) is still safe and is
+// wrong for the one input in which the sequence is the last thing in the text: the escape is then not decoded (a map
+// key that ends in & is compared as if it ended in the letters u0026, and the members come out in another order
+// than in encoding/json). Obligation, for every slice x[lo:hi] whose nearest enclosing condition compares a linear
+// form of the same cursor with len(x): the condition is equivalent to hi <= len(x).
+func c01r19(rc *core.RC) {
+	p := rc.P
+	n := 0
+	for _, pk := range p.LibPkgs() {
+		info := pk.TypesInfo
+		for _, fd := range p.Funcs(pk.Name) {
+			if fd.Body == nil {
+				continue
+			}
+			name := p.FuncName(fd)
+			le := &core.LinearEval{Info: info, Pkg: pk, Body: fd.Body}
+			k := 0
+			ast.Inspect(fd.Body, func(m ast.Node) bool {
+				se, ok := m.(*ast.SliceExpr)
+				if !ok || se.High == nil || se.Max != nil {
+					return true
+				}
+				t := info.TypeOf(se.X)
+				if t == nil || (t.String() != "[]byte" && t.String() != "string") {
+					return true
+				}
+				hi := le.Eval(se.High)
+				if !hi.OK {
+					return true
+				}
+				lenAtom := "len(" + types.ExprString(core.Unparen(se.X)) + ")"
+				// the nearest enclosing condition that compares something with len(x)
+				conds := condChainNodes(fd, se)
+				for i := len(conds) - 1; i >= 0; i-- {
+					c := conds[i]
+					be, ok := core.Unparen(c.cond).(*ast.BinaryExpr)
+					if !ok {
+						continue
+					}
+					l, r := le.Eval(be.X), le.Eval(be.Y)
+					if !l.OK || !r.OK {
+						continue
+					}
+					op := be.Op
+					// bring to the form A OP len(x)
+					var a core.Linear
+					switch {
+					case r.Terms[lenAtom] == 1 && len(nonzeroTerms(r)) == 1 && r.Const == 0:
+						a = l
+					case l.Terms[lenAtom] == 1 && len(nonzeroTerms(l)) == 1 && l.Const == 0:
+						a = r
+						switch op {
+						case token.LSS:
+							op = token.GTR
+						case token.LEQ:
+							op = token.GEQ
+						case token.GTR:
+							op = token.LSS
+						case token.GEQ:
+							op = token.LEQ
+						}
+					default:
+						continue
+					}
+					if !c.pos {
+						switch op {
+						case token.LSS:
+							op = token.GEQ
+						case token.LEQ:
+							op = token.GTR
+						case token.GTR:
+							op = token.LEQ
+						case token.GEQ:
+							op = token.LSS
+						}
+					}
+					// what the condition says about len(x): A < len  =>  A+1 <= len;  A <= len
+					var need core.Linear
+					switch op {
+					case token.LSS:
+						need = a.Add(core.LinConst(1))
+					case token.LEQ:
+						need = a
+					default:
+						continue
+					}
+					d := need.Sub(hi)
+					if !d.OK || len(nonzeroTerms(d)) != 0 {
+						break // another cursor: not a guard of this slice
+					}
+					k++
+					n++
+					rc.Touch(name)
+					rc.Check(d.Const == 0, fmt.Sprintf("%s/slice#%d %s guard-is-exact", name, k, core.Src(p.Fset, se)), se.Pos(), "the slice %s needs %s <= %s; the condition `%s` in front of it says %s <= %s: it has to admit exactly the positions at which the slice fits (stricter by %d: a sequence that ends with the text is refused and handled as if it were not one)", core.Src(p.Fset, se), hi, lenAtom, core.Src(p.Fset, c.cond), need, lenAtom, d.Const)
+					break
+				}
+				return true
+			})
+		}
+	}
+	if n < 1 {
+		rc.Unknown("module/guarded-slices", token.NoPos, "no slice with a length test on the same cursor in front of it found")
+	}
+}
